@@ -3881,7 +3881,8 @@ static PyObject* ormqr(PyObject *self, PyObject *args, PyObject *kwrds)
     if (ldC == 0) ldC = MAX(1,C->nrows);
     if (ldC < MAX(1,m)) err_ld("ldC");
     if (oA < 0) err_nn_int("offsetA");
-    if (oA + k*ldA  > len(A)) err_buf_len("A");
+    if (oA + (k-1)*ldA + ((side == 'L') ? m : n) > len(A))
+        err_buf_len("A");
     if (oC < 0) err_nn_int("offsetC");
     if (oC + (n-1)*ldC + m > len(C)) err_buf_len("C");
     if (len(tau) < k) err_buf_len("tau");
@@ -3994,7 +3995,8 @@ static PyObject* unmqr(PyObject *self, PyObject *args, PyObject *kwrds)
     if (ldC == 0) ldC = MAX(1,C->nrows);
     if (ldC < MAX(1,m)) err_ld("ldC");
     if (oA < 0) err_nn_int("offsetA");
-    if (oA + k*ldA > len(A)) err_buf_len("A");
+    if (oA + (k-1)*ldA + ((side == 'L') ? m : n) > len(A))
+        err_buf_len("A");
     if (oC < 0) err_nn_int("offsetC");
     if (oC + (n-1)*ldC + m > len(C)) err_buf_len("C");
     if (len(tau) < k) err_buf_len("tau");
@@ -4089,7 +4091,7 @@ static PyObject* orgqr(PyObject *self, PyObject *args, PyObject *kwrds)
     if (ldA == 0) ldA = MAX(1, A->nrows);
     if (ldA <  MAX(1, m)) err_ld("ldA");
     if (oA < 0) err_nn_int("offsetA");
-    if (oA + n*ldA  > len(A)) err_buf_len("A");
+    if (oA + (n-1)*ldA + m > len(A)) err_buf_len("A");
     if (len(tau) < k) err_buf_len("tau");
 
     switch (MAT_ID(A)){
@@ -4162,7 +4164,7 @@ static PyObject* ungqr(PyObject *self, PyObject *args, PyObject *kwrds)
     if (ldA == 0) ldA = MAX(1, A->nrows);
     if (ldA <  MAX(1, m)) err_ld("ldA");
     if (oA < 0) err_nn_int("offsetA");
-    if (oA + n*ldA  > len(A)) err_buf_len("A");
+    if (oA + (n-1)*ldA + m > len(A)) err_buf_len("A");
     if (len(tau) < k) err_buf_len("tau");
 
     switch (MAT_ID(A)){
@@ -4576,7 +4578,7 @@ static PyObject* orglq(PyObject *self, PyObject *args, PyObject *kwrds)
     if (ldA == 0) ldA = MAX(1, A->nrows);
     if (ldA <  MAX(1, m)) err_ld("ldA");
     if (oA < 0) err_nn_int("offsetA");
-    if (oA + n*ldA  > len(A)) err_buf_len("A");
+    if (oA + (n-1)*ldA + m > len(A)) err_buf_len("A");
     if (len(tau) < k) err_buf_len("tau");
 
     switch (MAT_ID(A)){
@@ -4649,7 +4651,7 @@ static PyObject* unglq(PyObject *self, PyObject *args, PyObject *kwrds)
     if (ldA == 0) ldA = MAX(1, A->nrows);
     if (ldA <  MAX(1, m)) err_ld("ldA");
     if (oA < 0) err_nn_int("offsetA");
-    if (oA + n*ldA  > len(A)) err_buf_len("A");
+    if (oA + (n-1)*ldA + m > len(A)) err_buf_len("A");
     if (len(tau) < k) err_buf_len("tau");
 
     switch (MAT_ID(A)){
